@@ -486,8 +486,7 @@ Proof. intros W. destruct (wf_fields q W) as (Hy & Hm & Hd). rewrite date_new_ok
 (* what nth_of returns, as a function of the ordinal  t = first occurrence + 7 (n - 1) *)
 Definition nth_result (u : Z) (p : pdate) (n wd : Z) : result pdate :=
   let t := nth_target u p n wd in
-  if t <=? unit_end u p then Ok (P t)
-  else if t <=? MAXORD then Raise E_PendulumException else Raise E_OverflowError.
+  if t <=? unit_end u p then Ok (P t) else Raise E_PendulumException.
 
 Lemma P_unit_start u p : is_unit u -> wf_date p ->
   P (unit_start u p) = mkdate (d_year p) (unit_first_month u (d_month p)) 1.
@@ -505,7 +504,7 @@ Definition raise_if_none (o : option pdate) : result pdate :=
 Lemma nth_tail u p n wd (body : pdate -> result (option pdate)) : is_unit u -> wf_date p -> 0 <= wd <= 6 -> 2 <= n ->
   (forall q, wf_date q -> unit_start u p <= date_ord q ->
      body q = if date_ord q <=? unit_end u p then Ok (Some q) else Ok None) ->
-  bind (bind (d_iter_next (nth_iters n wd (P (unit_start u p))) wd (P (unit_start u p))) body) raise_if_none
+  bind (overflow_to_none (bind (d_iter_next (nth_iters n wd (P (unit_start u p))) wd (P (unit_start u p))) body)) raise_if_none
   = nth_result u p n wd.
 Proof.
   intros Hu Hp Hwd Hn Hin. destruct (unit_start_range u p Hu Hp) as [Rs Re].
@@ -515,16 +514,16 @@ Proof.
   destruct (Z_le_gt_dec t MAXORD) as [L|G].
   - rewrite date_of_ord_in by lia. cbn [bind]. destruct (P_spec t ltac:(lia)) as [W E].
     rewrite (Hin (P t) W ltac:(lia)), E.
-    destruct (t <=? unit_end u p) eqn:C; cbn [bind raise_if_none]; [reflexivity|].
-    destruct (t <=? MAXORD) eqn:C'; [reflexivity|lia].
-  - rewrite date_of_ord_hi by lia. cbn [bind].
-    destruct (t <=? unit_end u p) eqn:C; [lia|]. destruct (t <=? MAXORD) eqn:C'; [lia|reflexivity].
+    destruct (t <=? unit_end u p) eqn:C; cbn [overflow_to_none bind raise_if_none]; reflexivity.
+  - (* the walk left the date range: OverflowError, caught by nth_of and turned into "no such occurrence" *)
+    rewrite date_of_ord_hi by lia. cbn [bind overflow_to_none raise_if_none].
+    destruct (t <=? unit_end u p) eqn:C; [lia|reflexivity].
 Qed.
 
 Lemma nth_first u p wd : is_unit u -> wf_date p -> 0 <= wd <= 6 ->
-  bind (bind (d_first_of u p (Some wd)) (fun r => Ok (Some r))) raise_if_none = nth_result u p 1 wd.
+  bind (overflow_to_none (bind (d_first_of u p (Some wd)) (fun r => Ok (Some r)))) raise_if_none = nth_result u p 1 wd.
 Proof.
-  intros Hu Hp Hwd. rewrite d_first_of_some by assumption. cbn [bind raise_if_none]. unfold nth_result, nth_target.
+  intros Hu Hp Hwd. rewrite d_first_of_some by assumption. cbn [bind overflow_to_none raise_if_none]. unfold nth_result, nth_target.
   rewrite Z.mul_0_r, Z.add_0_r. pose proof (unit_span u p Hu Hp). destruct (first_occ_props (unit_start u p) wd Hwd) as (F1 & _ & _).
   destruct (first_occ (unit_start u p) wd <=? unit_end u p) eqn:C; [reflexivity|lia].
 Qed.
@@ -804,47 +803,70 @@ Proof.
     destruct (first_occ_in_unit u p wd Hu Hp Hwd) as [R _]. rewrite (proj2 (P_spec _ R)). exact E.
 Qed.
 
-(* "raises PendulumException when the unit holds fewer than n": true whenever the n-th occurrence would still be a date *)
-Theorem nth_of_exception_kind_partial u p n wd : is_unit u -> wf_date p -> valid_wd wd -> 1 <= n ->
-  unit_end u p < first_occ (unit_start u p) wd + 7 * (n - 1) <= MAXORD ->
+(* "raises PendulumException when the unit holds fewer than n": for EVERY date of the range, year 9999 included
+   (before the repair of finding nth-of-overflow-at-max-year the loop's OverflowError escaped when the n-th occurrence
+   would fall after 9999-12-31) *)
+Theorem nth_of_exception_kind u p n wd : is_unit u -> wf_date p -> valid_wd wd -> 1 <= n ->
+  unit_end u p < first_occ (unit_start u p) wd + 7 * (n - 1) ->
   d_nth_of u p n wd = Raise E_PendulumException.
 Proof.
   intros Hu Hp Hwd Hn H. rewrite d_nth_of_spec by assumption. unfold nth_result, nth_target.
-  destruct (_ <=? unit_end u p) eqn:C; [lia|]. destruct (_ <=? MAXORD) eqn:C'; [reflexivity|lia].
+  destruct (_ <=? unit_end u p) eqn:C; [lia|reflexivity].
 Qed.
 
-(* ... and false at the upper edge of the range: OverflowError instead (finding nth-of-overflow-at-max-year) *)
-Theorem nth_of_exception_kind_refuted :
-  exists u p n wd, is_unit u /\ wf_date p /\ valid_wd wd /\ 1 <= n /\
-    unit_end u p < first_occ (unit_start u p) wd + 7 * (n - 1) /\
-    d_nth_of u p n wd = Raise E_OverflowError.
+Theorem nth_of_exception_iff u p n wd : is_unit u -> wf_date p -> valid_wd wd -> 1 <= n ->
+  (d_nth_of u p n wd = Raise E_PendulumException <-> unit_end u p < first_occ (unit_start u p) wd + 7 * (n - 1)).
 Proof.
-  exists U_MONTH, (mkdate 9999 12 1), 5, 0. unfold is_unit, wf_date, valid_wd.
-  repeat split; try (left; reflexivity); try (vm_compute; congruence); try lia.
+  intros Hu Hp Hwd Hn. split; [|now apply nth_of_exception_kind].
+  rewrite d_nth_of_spec by assumption. unfold nth_result, nth_target.
+  destruct (_ <=? unit_end u p) eqn:C; [discriminate|lia].
 Qed.
 
-Theorem nth_of_overflow_iff u p n wd : is_unit u -> wf_date p -> valid_wd wd -> 1 <= n ->
-  (d_nth_of u p n wd = Raise E_OverflowError <-> MAXORD < first_occ (unit_start u p) wd + 7 * (n - 1)).
+(* no other exception, in particular no OverflowError, for any date and any n >= 1 *)
+Theorem nth_of_only_pendulum_exception u p n wd e : is_unit u -> wf_date p -> valid_wd wd -> 1 <= n ->
+  d_nth_of u p n wd = Raise e -> e = E_PendulumException.
 Proof.
-  intros Hu Hp Hwd Hn. rewrite d_nth_of_spec by assumption. unfold nth_result, nth_target.
-  destruct (unit_start_range u p Hu Hp) as [Rs Re].
-  destruct (_ <=? unit_end u p) eqn:C; [split; [discriminate|lia]|].
-  destruct (_ <=? MAXORD) eqn:C'; split; try discriminate; try lia. reflexivity.
+  intros Hu Hp Hwd Hn. rewrite d_nth_of_spec by assumption. unfold nth_result.
+  destruct (_ <=? unit_end u p); [discriminate|]. intros H. inversion H. reflexivity.
 Qed.
 
-(* the whole range below year 9999 is safe for every n that the year can ask for *)
-Theorem nth_of_no_overflow_before_9999 u p n wd : is_unit u -> wf_date p -> valid_wd wd -> 1 <= n <= 54 ->
-  d_year p <= 9998 -> d_nth_of u p n wd <> Raise E_OverflowError.
+Theorem nth_of_never_overflows u p n wd : is_unit u -> wf_date p -> valid_wd wd -> 1 <= n ->
+  d_nth_of u p n wd <> Raise E_OverflowError.
 Proof.
-  intros Hu Hp Hwd Hn Hy H. apply (nth_of_overflow_iff u p n wd Hu Hp Hwd ltac:(lia)) in H.
-  destruct (first_occ_props (unit_start u p) wd Hwd) as (F & _).
-  destruct (wf_fields p Hp) as (Hy' & Hm & Hd). destruct (unit_months u (d_month p) Hu Hm) as [Hf Hl].
-  assert (V1 : valid_dateb (d_year p) (unit_first_month u (d_month p)) 1 = true).
-  { apply valid_dateb_true. pose proof (dim_bounds (d_year p) (unit_first_month u (d_month p))). lia. }
-  assert (V2 : valid_dateb 9998 12 1 = true) by reflexivity.
-  pose proof (ymd2ord_le _ _ _ _ _ _ V1 V2 ltac:(lia)) as L.
-  unfold unit_start in *. assert (ymd2ord 9998 12 1 = MAXORD - 395) by reflexivity. lia.
+  intros Hu Hp Hwd Hn H. apply (nth_of_only_pendulum_exception u p n wd _ Hu Hp Hwd Hn) in H. discriminate.
 Qed.
+
+(* the property as stated: the n-th weekday wd inside the unit, or PendulumException when the unit holds fewer than n
+   (every day of the unit on weekday wd comes before the place of the n-th one) *)
+Theorem nth_of_total u p n wd : is_unit u -> wf_date p -> valid_wd wd -> 1 <= n ->
+  (exists q, d_nth_of u p n wd = Ok q /\ wf_date q /\ in_unit u p q /\ dow q = wd /\
+             date_ord q = first_occ (unit_start u p) wd + 7 * (n - 1)) \/
+  (d_nth_of u p n wd = Raise E_PendulumException /\
+   forall q', wf_date q' -> in_unit u p q' -> dow q' = wd -> date_ord q' < first_occ (unit_start u p) wd + 7 * (n - 1)).
+Proof.
+  intros Hu Hp Hwd Hn.
+  destruct (Z_le_gt_dec (first_occ (unit_start u p) wd + 7 * (n - 1)) (unit_end u p)) as [L|G].
+  - left. destruct (first_occ_in_unit u p wd Hu Hp Hwd) as [R I]. destruct (unit_start_range u p Hu Hp) as [Rs Re].
+    set (t := first_occ (unit_start u p) wd + 7 * (n - 1)) in *.
+    destruct (P_spec t ltac:(lia)) as [W E]. exists (P t).
+    assert (Ok_ : d_nth_of u p n wd = Ok (P t)).
+    { apply (nth_of_ok_iff u p n wd (P t) Hu Hp Hwd Hn). split; [assumption|]. split; [|exact E].
+      apply (in_unit_ord u p _ Hu Hp W). lia. }
+    split; [exact Ok_|]. apply (nth_of_ok_iff u p n wd (P t) Hu Hp Hwd Hn) in Ok_. destruct Ok_ as (W' & I' & E').
+    split; [assumption|]. split; [assumption|]. split; [|exact E'].
+    destruct (first_occ_props (unit_start u p) wd Hwd) as (_ & Wd & _).
+    unfold dow. rewrite E'. unfold weekday0 in *. lia.
+  - right. split; [apply nth_of_exception_kind; try assumption; lia|].
+    intros q' W' I' _. apply (in_unit_ord u p q' Hu Hp W') in I'. lia.
+Qed.
+
+(* the former witnesses of the finding, as ordinary instances *)
+Theorem nth_of_max_year_examples :
+  d_nth_of U_MONTH (mkdate 9999 12 1) 5 0 = Raise E_PendulumException /\
+  d_nth_of U_YEAR (mkdate 9999 1 1) 53 0 = Raise E_PendulumException /\
+  d_nth_of U_QUARTER (mkdate 9999 11 15) 14 4 = Ok (mkdate 9999 12 31) /\
+  d_nth_of U_QUARTER (mkdate 9999 11 15) 15 4 = Raise E_PendulumException.
+Proof. repeat split; vm_compute; reflexivity. Qed.
 
 (* n <= 0: the loop does not run and the first day of the unit is returned, whatever its weekday *)
 Theorem nth_of_nonpositive_refuted :
